@@ -285,11 +285,13 @@ def write_replay(prop: str, payload: Dict[str, Any]) -> str:
 
 
 def load_known(prop: str) -> List[Dict[str, Any]]:
-    path = os.path.join(HOME, "known_findings.json")
+    """Known findings of one property: known_findings/<id>.json (committed; never written at run time).
+    known_findings.json at top level is the merged, human-readable copy written by py/gen_manifest.py."""
+    path = os.path.join(HOME, "known_findings", f"{prop}.json")
     if not os.path.exists(path):
         return []
     data = json.load(open(path))
-    return [e for e in data.get("findings", []) if e.get("property") == prop]
+    return [dict(e, property=prop) for e in data.get("findings", [])]
 
 
 def write_evidence(prop: str, tier: str, seed: int, level: str, coverage: Dict[str, Any], assumptions: List[str],
